@@ -1,8 +1,8 @@
 SPECIFICATION Spec
 CONSTANTS
-  REQ = {1, 2, 3}
+  REQ = {1, 2, 3, 4}
   T = 2
-  ACCEPT = {0, 1}
+  ACCEPT = {0}
   DELAY = {1, 2, 3}
   EX = 0
   INST = {0}
